@@ -200,22 +200,25 @@ Kill(caller, p) ==           \* provider.Kill: owner only, once
             /\ hist' = SlashHist(p, KillNum, KillDen)
        ELSE UNCHANGED <<prec, node, hist>>
   /\ last' = [kind |-> "kill", p |-> p, caller |-> caller,
-              ok |-> (caller = Owner /\ p \in DOMAIN node /\ ~Dead(p))]
+              ok |-> (caller = Owner /\ p \in DOMAIN node /\ ~Dead(p)), dev |-> FALSE]
   /\ UNCHANGED <<cbal, wallet>>
 
 ShutDown(caller, p) ==       \* provider.ShutDown: owner or the provider's delegate wallet, once
-  /\ LET auth == p \in DOMAIN node /\ ~Dead(p) /\ (caller = Owner \/ caller = node[p].wallet) IN
+  /\ LET auth == p \in DOMAIN node /\ ~Dead(p) /\ (caller = Owner \/ caller = node[p].wallet)
+         dev == auth /\ ShutDownSavesUnderCaller /\ caller # p
+     IN
      /\ IF auth
-          THEN /\ prec' = [prec EXCEPT ![p].shut = TRUE]
-               /\ IF ShutDownSavesUnderCaller
-                    THEN /\ node' = IF caller \in DOMAIN node
+          THEN /\ prec' = [prec EXCEPT ![p].shut = TRUE, ![p].bad = dev]
+               /\ IF dev
+                    THEN \* code as written: the slashed, dead copy goes to the CALLER's key; p's own node stays
+                         /\ node' = IF caller \in DOMAIN node
                                       THEN [node EXCEPT ![caller] = Slashed(node[p], ShutNum, ShutDen)]
                                       ELSE node @@ (caller :> Slashed(node[p], ShutNum, ShutDen))
-                         /\ hist' = IF caller = p THEN SlashHist(p, ShutNum, ShutDen) ELSE hist
+                         /\ hist' = hist
                     ELSE /\ node' = [node EXCEPT ![p] = Slashed(@, ShutNum, ShutDen)]
                          /\ hist' = SlashHist(p, ShutNum, ShutDen)
           ELSE UNCHANGED <<prec, node, hist>>
-     /\ last' = [kind |-> "shutdown", p |-> p, caller |-> caller, ok |-> auth]
+     /\ last' = [kind |-> "shutdown", p |-> p, caller |-> caller, ok |-> auth, dev |-> dev]
   /\ UNCHANGED <<cbal, wallet>>
 
 -----------------------------------------------------------------------------
@@ -259,15 +262,18 @@ HSum(h) == SumF([p \in Provider |-> SumF([d \in Client |-> h[p][d]], Client)], P
 C11_WalletBacks ==    \* relative wallet = everything locked - stakes returned - rewards paid out
   wallet = HSum(hist.locked) - HSum(hist.unstaked) - HSum(hist.collected)
 
-(* C23: kill / shutdown disable exactly that provider.                      *)
+(* C23: kill / shutdown disable exactly that provider.  The named deviation *)
+(* (ShutDownSavesUnderCaller) is excluded here and described by            *)
+(* C23_DeviationMisplacesPool; with the constant FALSE nothing is excluded. *)
+IsKS == last'.kind \in {"kill", "shutdown"}
 C23_Frame ==
-  [][ (last'.kind \in {"kill", "shutdown"}) =>
+  [][ (IsKS /\ ~last'.dev) =>
         /\ DOMAIN node' = DOMAIN node                                      \* no stake-pool node created
         /\ \A q \in DOMAIN node : q # last'.p => node'[q] = node[q]        \* nobody else touched
         /\ \A q \in Provider : q # last'.p => prec'[q] = prec[q]
         /\ ~last'.ok => (node' = node /\ prec' = prec) ]_vars
 C23_DeadAndSlashedOnce ==
-  [][ (last'.kind \in {"kill", "shutdown"} /\ last'.ok) =>
+  [][ (IsKS /\ last'.ok /\ ~last'.dev) =>
         LET p == last'.p
             num == IF last'.kind = "kill" THEN KillNum ELSE ShutNum
             den == IF last'.kind = "kill" THEN KillDen ELSE ShutDen
@@ -275,7 +281,13 @@ C23_DeadAndSlashedOnce ==
            /\ node'[p].killed
            /\ \A d \in Dels(node[p]) : node'[p].pools[d].bal = (node[p].pools[d].bal * (den - num)) \div den ]_vars
 C23_DeadNotRewarded ==
-  (IsDist /\ last.pre.killed) => (last.o.c = 0 /\ \A d \in Dels(last.pre) : last.o.r[d] = 0)
+  (IsDist /\ (last.pre.killed \/ (Dead(last.p) /\ ~prec[last.p].bad))) =>
+      (last.o.c = 0 /\ \A d \in Dels(last.pre) : last.o.r[d] = 0)
 C23_DeadImpliesPoolDead ==
-  \A p \in Provider : (p \in DOMAIN node /\ Dead(p)) => node[p].killed
+  \A p \in Provider : (p \in DOMAIN node /\ Dead(p) /\ ~prec[p].bad) => node[p].killed
+C23_DeviationMisplacesPool ==
+  [][ (IsKS /\ last'.dev) =>
+        /\ last'.kind = "shutdown" /\ ShutDownSavesUnderCaller
+        /\ node'[last'.p] = node[last'.p]                 \* the provider's own pool: not dead, not slashed
+        /\ last'.caller \in DOMAIN node' /\ node'[last'.caller].killed ]_vars
 =============================================================================
